@@ -16,8 +16,8 @@ import (
 )
 
 var (
-	tlsOnce         sync.Once
-	tlsSrv, tlsCli  *tls.Config
+	tlsOnce        sync.Once
+	tlsSrv, tlsCli *tls.Config
 )
 
 // loopIP is the loopback address engine R binds to: one per worker process
